@@ -76,7 +76,7 @@ fuzz_target!(|data: &[u8]| {
     if first_len as u64 > bs {
         return;
     }
-    let path = format!("/dev/shm/fz-text-{}.log", std::process::id());
+    let path = format!("{}/fz-text-{}.log", std::env::var("VP_FZ_DIR").unwrap_or_else(|_| "/dev/shm".to_string()), std::process::id());
     std::fs::write(&path, &content).unwrap();
     let ft = FileType::Text { archival_type: FileTypeArchive::Normal, encoding_type: FileTypeTextEncoding::Utf8Ascii };
     let tz = chrono::FixedOffset::east_opt(0).unwrap();
